@@ -524,6 +524,51 @@ def inline_helpers(body, src, keep, depth=0):
     return ";".join(out)
 
 
+def scan_tdes_set_key(src):
+    """Narrow source scan (regular expressions over the comment-free text, not the clang AST) of the body of
+    muggle_tdes_set_key: returns (foreign, targets).  `foreign` lists everything that is not one of: argument
+    checks (MUGGLE_CHECK_RET / MUGGLE_ASSERT_MSG), int / key-pointer locals computed from the parameters,
+    ctx->op / ctx->mode, switch / case / if / else / break / return, and calls
+    muggle_des_set_key(<op>, <mode>, <key pointer>, &ctx->ctxN).  Any other call (a key comparison helper,
+    memcpy, ...), any loop, any indexing, any other use of ctx->ctxN or store through ctx is foreign: the three
+    contexts must be produced by three key-schedule calls and nothing else.  `targets` = the N that occur."""
+    m = re.search(r"\bint\s+muggle_tdes_set_key\s*\([^)]*\)\s*\{", src)
+    if not m: raise ValueError("muggle_tdes_set_key not found")
+    i = m.end(); depth = 1
+    while depth:
+        if src[i] == "{": depth += 1
+        elif src[i] == "}": depth -= 1
+        i += 1
+    body = src[m.end():i - 1]
+    body = re.sub(r"/\*.*?\*/", " ", body, flags=re.S)
+    body = re.sub(r"//[^\n]*", " ", body)
+    body = re.sub(r'"(?:[^"\\\\]|\\\\.)*"', '""', body)
+    foreign = []
+    allowed_calls = {"muggle_des_set_key", "MUGGLE_CHECK_RET", "MUGGLE_ASSERT_MSG", "if", "switch", "return"}
+    for cm in re.finditer(r"\b([A-Za-z_]\w*)\s*\(", body):
+        if cm.group(1) not in allowed_calls:
+            foreign.append("call of %s" % cm.group(1))
+    for kw in re.findall(r"\b(for|while|do|goto)\b", body):
+        foreign.append("loop / jump: %s" % kw)
+    if "[" in body:
+        foreign.append("array indexing")
+    calls = re.findall(r"muggle_des_set_key\s*\(\s*[^;]*?,\s*[^;,]*?,\s*([A-Za-z_]\w*)\s*,\s*&\s*ctx\s*->\s*ctx([123])\s*\)", body)
+    if len(calls) != len(re.findall(r"\bmuggle_des_set_key\b", body)):
+        foreign.append("muggle_des_set_key call whose key / context arguments are not <pointer>, &ctx->ctxN")
+    nctx = len(re.findall(r"\bctx\s*->\s*ctx[123]\b", body))
+    if nctx != len(calls):
+        foreign.append("ctx->ctxN used outside a muggle_des_set_key call (%d uses, %d calls)" % (nctx, len(calls)))
+    for am in re.finditer(r"\bctx\s*->\s*(\w+)\s*(?:[-+*/|&^]|<<|>>)?=(?!=)", body):
+        if am.group(1) not in ("op", "mode"):
+            foreign.append("store to ctx->%s" % am.group(1))
+    if re.search(r"\*\s*ctx\b|\bctx\s*\[", body):
+        foreign.append("ctx dereferenced as a whole")
+    seen = []
+    for f in foreign:
+        if f not in seen: seen.append(f)
+    return seen, sorted(set(int(n) for _, n in calls))
+
+
 def gen_params_text(repo, gen_inc, builddir):
     """Never raises for something it cannot read in the sources: the failure becomes a comment and a
     definition that does not type-check in the generated file, i.e. a broken proof obligation whose Coq
@@ -640,6 +685,13 @@ def gen_params_text(repo, gen_inc, builddir):
     for fn in ("openssl_mix_columns", "openssl_inv_mix_columns"):
         emit(fn, attempt(fn, lambda: translate_straightline(
             inline_helpers(loop_body(function_body(asrc, fn)), asrc, circuits), 64, inp=r"state\[c\]", calls=done), ([], 0, 1)))
+    # muggle_tdes_set_key: only argument checks and three key-schedule calls (narrow source scan)
+    tsrc = open(os.path.join(repo, "muggle/c/crypt/tdes.c")).read()
+    foreign, targets = attempt("muggle_tdes_set_key", lambda: scan_tdes_set_key(tsrc), (["scan failed"], []))
+    txt.append("(* muggle_tdes_set_key (tdes.c): statements that are neither argument checks nor")
+    txt.append("   muggle_des_set_key(<op>, <mode>, <key>, &ctx->ctxN) calls; the contexts these calls fill *)")
+    txt.append("Definition tdes_set_key_foreign : list string := [%s]." % "; ".join('"%s"%%string' % f.replace('"', '""') for f in foreign))
+    txt.append("Definition tdes_set_key_targets : list nat := [%s]%%nat.\n" % ";".join(map(str, targets)))
     for k, msg in enumerate(fails):
         txt.append("(* EXTRACTION FAILED: %s *)" % msg.replace("*)", "* )").replace("(*", "( *"))
         txt.append('Definition extraction_failed_%d : ("%s" = "")%%string := eq_refl.\n' % (k + 1, msg.replace('"', '""')))
@@ -850,6 +902,90 @@ def _len_choice(rng, bs, big):
     return rng.range(1, big)
 
 
+def _xor_bytes(k, mask, where=None):
+    """k with `mask` xor-ed into byte `where` (every byte when None)"""
+    return bytes(b ^ (mask if where is None or j == where else 0) for j, b in enumerate(k))
+
+
+def _flip_bit(k, p):
+    k = bytearray(k)
+    k[p // 8] ^= 0x80 >> (p % 8)
+    return bytes(k)
+
+
+def key_relation_cases(rng, quick):
+    """Keys that are related to each other: a cipher that compares, shares, caches or normalises keys or key
+    schedules (a two-key Triple-DES shortcut, a parity-insensitive comparison with the wrong mask, ...) is only
+    exercised when K1, K2, K3 are equal, equivalent (parity bits only) or differ in one chosen bit or byte.
+    Every case is an ECB (some also a stream mode) round trip over three blocks, compared with the extracted
+    Spec by the monitor, in both directions."""
+    cases = []
+    ops = ("enc", "dec")
+    cnt = [0]
+
+    def add(name, alg, bits, key, mode="ecb", nblk=3):
+        cnt[0] += 1
+        cases.append(roundtrip_case(rng, "krel-%s-%s" % (name, mode), alg, bits, mode, ops[cnt[0] % 2], nblk * BS[alg], key=key))
+
+    # ---- Triple-DES: relations between K1, K2, K3
+    masks = [("x80", 0x80), ("x01", 0x01), ("xfe", 0xfe), ("x7f", 0x7f), ("x81", 0x81), ("x40", 0x40), ("x02", 0x02), ("xff", 0xff)]
+    for b in range(2 if quick else 6):
+        k1, k2 = _rbytes(rng, 8), _rbytes(rng, 8)
+        if b == 1:
+            k1, k2 = bytes.fromhex("0123456789abcdef"), bytes.fromhex("23456789abcdef01")
+        add("tdes-eq123-%d" % b, "tdes", 192, k1 + k1 + k1)
+        add("tdes-eq13-%d" % b, "tdes", 192, k1 + k2 + k1)
+        add("tdes-eq12-%d" % b, "tdes", 192, k1 + k1 + k2)
+        add("tdes-eq23-%d" % b, "tdes", 192, k1 + k2 + k2)
+        add("tdes-eq13-%d" % b, "tdes", 192, k1 + k2 + k1, mode=rng.choice(["cbc", "cfb", "ofb", "ctr"]))
+        for mn, mk in masks:
+            # r = K1 xor mask (in every byte / in one byte) placed next to K1 in each pair of positions
+            for pn, f in (("k3k1", lambda r: k1 + k2 + r), ("k1k3", lambda r: r + k2 + k1),
+                          ("k2k1", lambda r: k1 + r + k2), ("k3k2", lambda r: k2 + k1 + r)):
+                add("tdes-%s-%s-all-%d" % (pn, mn, b), "tdes", 192, f(_xor_bytes(k1, mk)))
+                for j in (range(8) if (pn == "k3k1" or not quick) else (rng.below(8),)):
+                    add("tdes-%s-%s-b%d-%d" % (pn, mn, j, b), "tdes", 192, f(_xor_bytes(k1, mk, j)))
+            add("tdes-k3k1-%s-all-%d" % (mn, b), "tdes", 192, k1 + k2 + _xor_bytes(k1, mk), mode=rng.choice(["cfb", "ofb", "ctr"]))
+        # the 192 single-bit neighbours of a two-key triple and of a one-key triple
+        for bn, base in (("2k", k1 + k2 + k1), ("1k", k1 + k1 + k1)):
+            if quick and b > 0 and bn == "1k":
+                continue
+            for p in range(192):
+                add("tdes-bit-%s-%d-p%d" % (bn, b, p), "tdes", 192, _flip_bit(base, p), nblk=2)
+    # weak / semi-weak / constant keys in related positions
+    specials = [bytes(8), b"\xff" * 8, b"\x80" * 8, b"\x01" * 8, b"\xfe" * 8, b"\x7f" * 8] + \
+               [bytes.fromhex(h) for h in DES_WEAK + DES_SEMI_WEAK]
+    for j, w in enumerate(specials):
+        o = specials[(j + 1) % len(specials)]
+        add("tdes-special-%d-a" % j, "tdes", 192, w + o + _xor_bytes(w, 0x80))
+        add("tdes-special-%d-b" % j, "tdes", 192, w + o + _xor_bytes(w, 0x01))
+        add("tdes-special-%d-c" % j, "tdes", 192, w + w + w)
+        add("tdes-special-%d-d" % j, "tdes", 192, w + _xor_bytes(w, 0x80, j % 8) + w)
+        add("des-special-%d" % j, "des", 64, w)
+        add("des-special-%d-x80" % j, "des", 64, _xor_bytes(w, 0x80))
+        add("des-special-%d-x01" % j, "des", 64, _xor_bytes(w, 0x01))
+    # ---- DES: parity-equivalent keys and the 64 single-bit neighbours (the 8 parity neighbours must give the
+    #      same ciphertext as the base key, the other 56 a different key schedule: the monitor compares both
+    #      output and key schedule with the Spec)
+    for b in range(1 if quick else 4):
+        k = _rbytes(rng, 8)
+        add("des-base-%d" % b, "des", 64, k)
+        add("des-parity-all-%d" % b, "des", 64, _xor_bytes(k, 0x01))
+        for p in range(64):
+            add("des-bit-%d-p%d" % (b, p), "des", 64, _flip_bit(k, p), nblk=2)
+    # ---- AES: single-bit neighbours of one key per size (every bit in the thorough tier)
+    for bits in (128, 192, 256):
+        k = _rbytes(rng, bits // 8)
+        add("aes%d-base" % bits, "aes", bits, k, nblk=2)
+        pos = range(bits) if not quick else sorted(set([0, 7, 8, bits - 1, bits - 8, bits // 2] + [rng.below(bits) for _ in range(26)]))
+        for p in pos:
+            add("aes%d-bit-p%d" % (bits, p), "aes", bits, _flip_bit(k, p), nblk=2)
+        half = bits // 16
+        add("aes%d-halves-equal" % bits, "aes", bits, k[:half] + k[:half], nblk=2)
+        add("aes%d-halves-x80" % bits, "aes", bits, k[:half] + _xor_bytes(k[:half], 0x80), nblk=2)
+    return cases
+
+
 def generate(rng, tier):
     cases = []
     quick = tier == "quick"
@@ -891,6 +1027,7 @@ def generate(rng, tier):
         cases.append(roundtrip_case(rng, "weak-des-s-%d" % j, "des", 64, rng.choice(["cbc", "cfb", "ofb", "ctr"]), "enc", 29, key=k))
         cases.append(roundtrip_case(rng, "weak-tdes-%d" % j, "tdes", 192, rng.choice(MODES), "enc", 24,
                                     key=k + bytes.fromhex(rng.choice(DES_WEAK + DES_SEMI_WEAK)) + k))
+    cases += key_relation_cases(rng, quick)
     for alg, bits in ALGS:
         for mode in MODES:
             cases.append(reject_matrix_case(rng, alg, bits, mode))
@@ -1152,7 +1289,11 @@ RULE = ("every algorithm/key size (AES-128/192/256, DES, 3DES) x mode (ECB, CBC,
         "0..4096 bytes (quick tier: mostly below 700 bytes plus one 4096-byte message per algorithm and mode) cut into 1..8 chunks per direction with the state carried, aligned and "
         "misaligned buffers, a second phase that feeds the implementation's own output back in the opposite direction; "
         "parameter-rejection scripts (bad op/mode/key size, NULL pointers, non-block lengths, offset >= block size, mode "
-        "function not matching the context); SP 800-38A / FIPS-197 / DES / TDEA known-answer corpus.  A case is non-trivial "
+        "function not matching the context); related keys (krel-*: 3DES with K1=K2=K3, K1=K3, K1=K2, K2=K3, and K_i = K_j xor "
+        "0x80 / 0x01 (parity-equivalent) / 0xfe / 0x7f / 0x81 / 0x40 / 0x02 / 0xff in one byte or all bytes for the position "
+        "pairs (3,1) (1,3) (2,1) (3,2), the 192 single-bit neighbours of a two-key and of a one-key triple, constant / weak / "
+        "semi-weak keys in related positions; DES: parity-equivalent keys and the 64 single-bit neighbours; AES: single-bit "
+        "neighbours and equal / one-bit-apart key halves), each an ECB round trip over 2-3 blocks compared with the Spec; SP 800-38A / FIPS-197 / DES / TDEA known-answer corpus.  A case is non-trivial "
         "when at least one call transformed data; distinct = distinct script text")
 TRUSTED_BASE = [
     "'equals the standard' is carried by: (a) the Coq specification layer (Spec_AES.v, Spec_DES.v) being a transcription of "
@@ -1176,6 +1317,14 @@ TRUSTED_BASE = [
     "context and the cipher output): the two-word state and its byte view, the byte loops of openssl_shift_row / "
     "_inv_shift_row, openssl_add_round_key, openssl_rot_word, the loop of openssl_key_expansion, the round loops of "
     "openssl_cipher / openssl_inv_cipher",
+    "muggle_tdes_set_key (tdes.c) is tied to tdes_key_schedules_independent by a NARROW SOURCE SCAN (regular expressions "
+    "over the comment-free function body in lib/props/c12.py, not the clang AST), run on every check: anything that is not an "
+    "argument check (MUGGLE_CHECK_RET / MUGGLE_ASSERT_MSG), a local computed from the parameters, ctx->op / ctx->mode, "
+    "switch / if / return, or a call muggle_des_set_key(<op>, <mode>, <key pointer>, &ctx->ctxN) is listed in "
+    "tdes_set_key_foreign (any other call such as a key comparison or memcpy, any loop, any indexing, any other use of "
+    "ctx->ctxN); the obligation tdes_set_key_text_is_three_schedule_calls requires that list to be empty and the calls to "
+    "fill exactly ctx1, ctx2, ctx3.  Which key and direction each call receives is not decided by the scan (so pointer "
+    "locals as in a restructured switch stay quiet); that is checked by the ks= comparison of the three schedules on every setkey",
     "little-endian host (uint32_t/uint64_t views of byte buffers, the CTR nonce read as bytes); caller buffers do not alias",
 ]
 ASSUMPTIONS = ["input, output and iv buffers are distinct objects (in-place CBC decryption is not part of the documented use)",
@@ -1226,6 +1375,16 @@ EVIDENCE_NOTES = [
     "for the three key sizes.  The tables, PERM_OP "
     "arguments, lookup order, shift schedules and the S-box circuits come from coq/gen/Params_C12.v, regenerated from the "
     "working tree on every run: a changed table entry, mask or shift breaks these obligations (as well as the differential run).",
+    "KEY HANDLING PROVED: des_key_schedule_ignores_parity (keys equal after '& 0xfe' on every byte have the same sixteen "
+    "sub-keys; des_key_schedule_impl_ignores_parity for DES_set_key_unchecked as coded) and "
+    "des_key_schedule_ignores_exactly_parity (on the 64 key bits: positions 7, 15, .., 63 never matter, and for each of the "
+    "other 56 positions a named sub-key bit equals that key bit, so keys differing there have different schedules - a "
+    "comparison that also ignores bit 0x80, or any other bit, is not an equivalence of keys); "
+    "tdes_key_schedules_independent (for every key triple, direction and mode the three contexts are the DES key schedules of "
+    "one key each - tdes_slots names key and direction - and ctx_i does not change when the other keys change); "
+    "tdes_key_schedules_impl_independent (the ctx1..ctx3 bytes of the implementation layer are those three schedules); "
+    "tdes_set_key_text_is_three_schedule_calls (source scan of muggle_tdes_set_key, see trusted base): a shortcut path that "
+    "compares keys or copies a schedule breaks this obligation before any input is found.",
     "COVERED BY THE DIFFERENTIAL RUN AND THE MONITOR ONLY: that the hand-transcribed control structure of the implementation "
     "layer is the control structure of the C code (Impl_DES.v against openssl_des.c; in Impl_AES.v the state view, shift_row "
     "byte loops, add_round_key, rot_word, key expansion loop and round loops against openssl_aes.c) - additionally checked on "
@@ -1244,7 +1403,8 @@ EVIDENCE_NOTES = [
     "Self-validation (scratch worktrees): caught with a reproducing replay - CFB decrypt storing the output byte in the "
     "register, CTR carry on nonce[0]==1, CBC decrypt taking the output block as next iv, DES OFB offset not written back, "
     "3DES decrypt key order, one DES SP-table entry, AES ECB length check relaxed to 8, 3DES CTR increment after use, AES-256 "
-    "key expansion without the extra SubWord, 3DES CFB offset wrap '% 7', DES CBC iv not written back; an error-code change "
+    "key expansion without the extra SubWord, 3DES CFB offset wrap '% 7', DES CBC iv not written back, two-key 3DES shortcut with a wrong equivalence mask (caught by "
+    "the related-key family and by the source-scan obligation); an error-code change "
     "is reported as a broken correspondence (no-failing-input-found); quiet on '& 0x0f' -> '% 16', '/ 8' -> '>> 3', a "
     "rewritten counter carry.",
 ]
